@@ -12,6 +12,21 @@
 //	   scheduler (optionally with stalls, so that the GC ticker fires in the middle); bounds at
 //	   sampled instants, exact conservation at quiescence, zero after the concurrent closing phase.
 //
+// Observation and set-up (audited for observer effects and warm-up artefacts):
+//
+//   - Stat(), ConnManagementScope/StreamManagementScope/span .Stat(), ViewSystem and ViewTransient only
+//     lock and read. ViewService/ViewProtocol/ViewPeer create the scope if it is missing and take a
+//     reference; used as an observation after every operation they would always re-create a collected
+//     (or never created) scope before the next workload operation could. Half of the runs (drawn)
+//     therefore observe without them; direct reservations and spans on top level scopes, which are
+//     workload, still go through View*. Nothing else the harness calls to observe changes state: GC is
+//     only triggered by the manager's own ticker, i.e. by workload clock advances / scheduler stalls,
+//     and the auditor task of stratum C uses Stat(), handle Stat() and the trace shadow only.
+//   - There is no warm-up: the first operation on the fresh manager is drawn like every other one (it
+//     may be refused, hit the per-subnet limiter, be an allow-listed fallback, or race with the first
+//     operations of other clients in stratum C); limiter tables, peer/protocol/service scopes and the
+//     per-peer sub-scope maps are created lazily by whichever workload operation comes first.
+//
 // Oracles and violation classes (DESIGN.md C03 a-f):
 //
 //	(a) C03/ledger-mismatch/<scope-class>/<resource>      a reading differs from the ledger sum
@@ -108,6 +123,13 @@ func run(t *testing.T, tape *simrt.Tape) *common.Outcome {
 		o.Logf("%s", l)
 	}
 	w := &world{o: o, cfg: cfg, led: newLedger(cfg), sh: newShadow(cfg)}
+	// Observation mode (see world.read): drawn from the schedule stream, before the scheduler uses it,
+	// so that workload tapes (G) keep their meaning. 0 = also observe through the scope-creating View* calls.
+	w.viewCreating = tape.S.Draw(2) == 0
+	if !w.viewCreating {
+		o.Probe("observation-without-creating-views")
+		o.Logf("observation: Stat(), handles, trace, ViewSystem/ViewTransient only (no ViewService/ViewProtocol/ViewPeer)")
+	}
 	var plan *cPlan
 	stall := 0
 	if concurrent {
